@@ -322,6 +322,14 @@ pub fn drive_random(s: &mut Session, rng: &mut Rng, runs: usize) {
                                     for _ in 0..rng.below(4) {
                                         s.tick();
                                     }
+                                    if rng.chance(1, 2) {
+                                        // a time changed while its phase is not running (possibly with no tick
+                                        // before the phase is entered again)
+                                        let w = ['a', 'd', 'r'][rng.below(3) as usize];
+                                        let t2 = (rng.log_uniform(0.3, 1500.0) / fs as f64) as f32;
+                                        times[match w { 'a' => 0, 'd' => 1, _ => 2 }] = t2;
+                                        s.set_time(w, t2);
+                                    }
                                     s.gate_on();
                                     for _ in 0..rng.below(4) {
                                         s.tick();
